@@ -5,7 +5,9 @@
 //	F <what was assembled>                (`F S <source, line breaks written \n>` for generated sources)
 //	FS <text of the file set>             (files mode: the oracle reads the cpdef / ioatt lines)
 //	AL n0,n1,..                           (json mode: instruction counts of the assembly saved per processor)
-//	PB                                    (bondgo machines: every processor port must be bonded)
+//	PB                                    (json mode, argument `pb`: every processor port must be bonded)
+//	XW i o b                              (json mode, argument `xw=i,o,b`: the machine has i inputs, o outputs and b
+//	                                       processor-to-processor bonds — derived by the driver from the front-end's input)
 //	R ok | R err <class> <stage>
 //	M/C/W/D/II/IO/LK/E                    the emitted machine
 //
@@ -14,8 +16,10 @@
 //	c16 gen <cases>                          basm on the C05 generator (incl. sources with an unfit operand)
 //	c16 lib <root> <dyn|nodyn>               basm on every *.basm under <root>, each one standalone
 //	c16 files <kind> <dyn|nodyn> <minws|-> f1.basm f2.basm ...   basm on a file set (output of neuralbond / bmqsim + library)
+//	c16 ops                                  `OPS <names of procbuilder.Allopcodes>`, then basm on one source per high-level
+//	                                         matcher pattern of every opcode (with and without -chooser-min-word-size)
 //	c16 text <file>                          basm on one source (replay)
-//	c16 json <kind> <what> <bm.json> [asm_0 asm_1 ...]   a machine saved by a front-end CLI (bondgo -save-bondmachine, ...)
+//	c16 json <kind> <what> <bm.json> [pb] [xw=i,o,b] [asm_0 asm_1 ...]   a machine saved by a front-end CLI (bondgo -save-bondmachine, ...)
 //	                                         and the assembly the front-end saved per processor (-save-assembly): their
 //	                                         instruction counts are sent as `AL n0,n1,...`
 package main
@@ -43,6 +47,10 @@ var fileSetText string
 // instruction counts of the assembly texts a front-end saved next to the machine (json mode), per processor
 var asmLens []string
 
+// claims about the wiring that the driver derived from the front-end's own input (json mode): `PB` (every processor port is
+// bonded) and `XW <inputs> <outputs> <processor-to-processor bonds>`
+var extraLines []string
+
 func report(id int, kind string, mustFail bool, what string, bm *bondmachine.Bondmachine, stage string, err error) {
 	mf := 0
 	if mustFail {
@@ -53,9 +61,8 @@ func report(id int, kind string, mustFail bool, what string, bm *bondmachine.Bon
 	if len(asmLens) > 0 {
 		out.Line("AL %s", strings.Join(asmLens, ","))
 	}
-	if strings.HasPrefix(kind, "bondgo:") {
-		// bondgo creates a processor port for a declared IO only: each one is bonded to another processor or is a port of the machine
-		out.Line("PB")
+	for _, l := range extraLines {
+		out.Line("%s", l)
 	}
 	if fileSetText != "" {
 		out.Line("FS %s", strings.ReplaceAll(strings.TrimRight(fileSetText, "\n"), "\n", "\\n"))
@@ -91,6 +98,23 @@ func main() {
 			c := basmdump.GenExtCase(r)
 			bm, stage, err := basmdump.Assemble(c.Text, basmdump.Options{DisableDynamic: true})
 			report(n+i, "gen:"+c.Kind, c.MustFail, "S "+strings.ReplaceAll(strings.TrimRight(c.Text, "\n"), "\n", "\\n"), bm, stage, err)
+		}
+	case "ops":
+		// the registry itself, then one source per matcher pattern of every opcode, with and without the word-size chooser
+		cases, names, skipped := basmdump.OpcodeCases()
+		out.Line("OPS %s", strings.Join(names, ","))
+		out.Line("OPSKIP %s", strings.Join(skipped, " "))
+		id := 0
+		for _, c := range cases {
+			for _, minws := range []bool{true, false} {
+				bm, stage, err := basmdump.Assemble(c.Text, basmdump.Options{DisableDynamic: true, MinWordSize: minws})
+				kind := c.Kind
+				if minws {
+					kind += ":minws"
+				}
+				report(id, kind, false, "S "+strings.ReplaceAll(strings.TrimRight(c.Text, "\n"), "\n", "\\n"), bm, stage, err)
+				id++
+			}
 		}
 	case "lib":
 		root := os.Args[2]
@@ -143,6 +167,14 @@ func main() {
 			}
 		}
 		for _, af := range os.Args[5:] {
+			if af == "pb" {
+				extraLines = append(extraLines, "PB")
+				continue
+			}
+			if strings.HasPrefix(af, "xw=") {
+				extraLines = append(extraLines, "XW "+strings.ReplaceAll(af[3:], ",", " "))
+				continue
+			}
 			n := 0
 			if t, e := os.ReadFile(af); e == nil {
 				for _, l := range strings.Split(string(t), "\n") {
